@@ -10,12 +10,15 @@ COQ_IMPORTS = 'From VRP Require Import Base.Tac Model.Core Spec.Feasible Model.E
 MODEL_TARGETS = ['theories/Model/Context.vo']
 MODEL_NEEDS_IMPL = True
 SHARD = 6
+SUBSTREAMS = ['c04_ops']      # direct correspondence: real operators vs the operator programs of Model/Operators.v
 SIZES = {'quick': 150, 'thorough': 2500, 'search': 500}
 RULE = ('cases: a problem built through the core API (4-7 locations, metric integer matrix in 11 of 12 cases, 2-4 vehicles with own '
         'costs/capacity/shift/open or closed end, 4-10 jobs: singles with 1-2 places x 1-2 windows, pickup-delivery multi jobs, '
         'optional compatibility / group / tour-order tags, optional pinned jobs, in 1 case of 4 one or two jobs pending in '
         '`ignored`; 1 case in 4 is a "fleet" case: 8-12 unit jobs on vehicles of capacity 2-3, i.e. 3+ tours, nothing unassigned, '
-        'ignored jobs, half of the steps DecomposeSearch) + a history of 6-18 (thorough: 10-30) calls (1 in 5 under a counting '
+        'ignored jobs, half of the steps DecomposeSearch; max(3, n/50) "long tour" cases: one vehicle, 28-40 pickup-delivery jobs on a '
+        'line with every delivery closer to the depot than its pickup, i.e. one tour of 56-80 activities built and re-built '
+        'through the sampled leg search of the evaluator) + a history of 6-18 (thorough: 10-30) calls (1 in 5 under a counting '
         'quota that interrupts the step after its k-th poll) of the '
         'real operators - every public Ruin (through CompositeRuin = + restore), Recreate, LocalOperator and '
         'HeuristicSearchOperator - driven by a scripted Random (splitmix64). Start state: RecreateWithCheapest on everything. '
@@ -23,7 +26,8 @@ RULE = ('cases: a problem built through the core API (4-7 locations, metric inte
 TRUSTED = ['the dump of the solution context printed by harness/src/bin/ops.rs (public fields of SolutionContext, Tour, Registry)',
            'tools/props/opslib.py: generators, the explanation of a dumped transition as a word of model primitives, and the '
            'independent Python reading of the invariant (cross-checked against the Coq checker inv_b on every state)',
-           'that every shipped operator is a composition of the model primitives is validated on the dumps (run_word), not proved']
+           'that every shipped operator is a composition of the model primitives is validated on the dumps (run_word); the '
+           'operator PROGRAMS of Model/Operators.v are tied to the code by the direct correspondence of sub-stream c04_ops']
 ASSUMPTIONS = ['integer-valued data: every f64 operation on schedules/loads is exact',
                'triangle inequality on durations for the feasibility of removals (explicit hypothesis of the theorems; the '
                'generator produces Manhattan matrices, 1 in 12 cases is non-metric on purpose)',
@@ -35,6 +39,10 @@ def generate(rng, tier, n):
     cases = [O.gen_case(rng, tier) for _ in range(n)]
     # targeted stream: tours that LKH re-orders so that a later part of a pickup-delivery job cannot be put back (repair)
     cases += [O.gen_repair_case(rng) for _ in range(max(10, n // 12))]
+    # long single tours of pickup-delivery jobs: the evaluator's SAMPLED leg search (tours of 56-80 activities) must keep the
+    # parts of a multi job in order (own forked stream: the cases above do not depend on it)
+    lrng = rng.fork('long_tour')
+    cases += [O.gen_long_tour_case(lrng, tier) for _ in range(max(3, n // 50))]
     return cases
 
 
@@ -303,17 +311,26 @@ def shrink_candidates(c):
         yield d
 
 
-MANIFEST_TEXT = ('Machine-checked proof (Coq) over an executable model of the solution context (homes of a job, registry, tours) and '
-                 'of the primitives all search operators are built from (job/route removal with the locked-job guard, '
-                 'remove_empty_routes, apply_insertion_success/failure, finalize_unassigned, departure rescheduling, merge of '
-                 'decomposed parts): the consistency invariant - every job exactly one home, registry matches the tours, multi '
-                 'jobs whole and ordered, pinned jobs in place, every tour feasible by step-by-step simulation, compatibility and '
-                 'group rules - is preserved by every primitive under its guard, hence by every finite history; feasibility of '
-                 'removal carries the triangle inequality as hypothesis, with a machine-checked counterexample without it. The '
-                 'invariant has a verified executable checker which is run inside Coq on the state dumped after EVERY call of the '
-                 'real operators in random histories; each dumped transition is replayed through the model primitives; the parent '
-                 'solution is dumped before and after each call.')
-MANIFEST_NOTE = ('Trusted: Coq kernel+vm_compute; harness dumps; generators. Not proved: that each Rust operator is a composition of '
-                 'the modelled primitives (validated by replaying every dumped transition); the insertion guard is the evaluator '
-                 'contract proved in C06. Hypotheses: triangle inequality for removals; integer data.')
-MANIFEST_TECHNIQUE = 'Coq proof (invariant preservation by induction over operator histories) + verified checker evaluated by vm_compute on dumps of the real operators'
+MANIFEST_TEXT = ('Machine-checked proof (Coq) over an executable model of the solution context (homes of a job, registry, tours), of '
+                 'the primitives all search operators are built from, and of the shipped operators as PROGRAMS over them with every '
+                 'random draw / selection / evaluator answer an oracle argument: JobRemovalTracker (limits, locked-job tests, '
+                 'try_remove_job, try_remove_route), the eight ruins and CompositeRuin, the recreate family (InsertionHeuristic::'
+                 'process), RuinAndRecreate, ExchangeSequence / InterRoute / IntraRoute / SwapStar, RescheduleDeparture, '
+                 'RedistributeSearch and DecomposeSearch (split into groups, refine, merge back). Proved for ALL oracles: the '
+                 'consistency invariant - every job exactly one home, registry matches the tours, multi jobs whole and ordered, '
+                 'pinned jobs in place, every tour feasible by step-by-step simulation, compatibility and group rules - is kept by '
+                 'every primitive under its guard, by every modelled operator and by every finite history over their sum type; '
+                 'ruins never touch a pinned job (the locked part of every tour is literally unchanged), remove jobs whole and '
+                 'respect the limits of the tracker; the merge of decomposed parts is exactly the union of any refinements that '
+                 'respect the contract of their part. Feasibility of removal carries the triangle inequality as hypothesis, with a '
+                 'machine-checked counterexample without it. The invariant has a verified executable checker which is run inside '
+                 'Coq on the state dumped after EVERY call of the real operators in random histories; each dumped transition is '
+                 'replayed through the model primitives; the ruins and the exchange operators are additionally re-run as model '
+                 'PROGRAMS on the random draws and selections recorded from the real run and must give the same solution; the '
+                 'parent solution is dumped before and after each call.')
+MANIFEST_NOTE = ('Trusted: Coq kernel+vm_compute; harness dumps and Random call log; generators; decoding of a real run into the '
+                 'oracle of the model program. Not modelled as programs: InfeasibleSearch, LKHSearch, repair_solution_from_unknown '
+                 '(checked by the verified checker on every dumped state and by the primitive replay); the insertion guard is the '
+                 'evaluator contract proved in C06; the refinement contract of DecomposeSearch is a hypothesis (an executable '
+                 'check in the model). Hypotheses: triangle inequality for removals; integer data.')
+MANIFEST_TECHNIQUE = 'Coq proof (invariant preservation by the operator programs for all oracles, induction over histories) + verified checker evaluated by vm_compute on dumps of the real operators + model programs re-run on the recorded choices of the real operators'
